@@ -1,4 +1,872 @@
-(* LangProofs.v — proofs about Lang.v (C05) *)
+(* LangProofs.v — proofs about Lang.v (C05).
+   1. eval is invariant under permutation of the terms of a sum / factors of a product
+   2. Python string helpers; lhs forms: `d/dt * x = r` and `x' = r` classify identically as (x, DE, r)
+   3. tokenizer: tokenize (render sp pw ts) = Some ts for every spacing / power-notation oracle
+   4. parser: parse_toks (pr 0 ps e) = Some e for every parenthesisation oracle (operator subset: no calls)
+   5. parse (print style e) = Some e; call surgery replaces exactly the call when the argument text has no `)` *)
 From Coq Require Import List ZArith QArith Qcanon Bool Arith Ascii String Lia Permutation.
 From PV Require Import Lang.
 Import ListNotations.
+Open Scope char_scope.
+Open Scope list_scope.
+Open Scope nat_scope.
+
+(* ================================================================== part LP1 *)
+(* ------------------------------------------------------------------ evaluation: order of terms / factors *)
+Lemma oadd_comm a b : oadd a b = oadd b a.
+Proof. destruct a, b; simpl; try reflexivity. f_equal. ring. Qed.
+Lemma oadd_assoc a b c : oadd (oadd a b) c = oadd a (oadd b c).
+Proof. destruct a, b, c; simpl; try reflexivity. f_equal. ring. Qed.
+Lemma omul_comm a b : omul a b = omul b a.
+Proof. destruct a, b; simpl; try reflexivity. f_equal. ring. Qed.
+Lemma omul_assoc a b c : omul (omul a b) c = omul a (omul b c).
+Proof. destruct a, b, c; simpl; try reflexivity. f_equal. ring. Qed.
+
+Lemma fold_left_perm (f : option Qc -> option Qc -> option Qc)
+  (fc : forall a b, f a b = f b a) (fa : forall a b c, f (f a b) c = f a (f b c)) :
+  forall l l', Permutation l l' -> forall x, fold_left f l x = fold_left f l' x.
+Proof.
+  induction 1; intros; simpl; auto.
+  - f_equal. rewrite !fa. f_equal. apply fc.
+  - rewrite IHPermutation1. apply IHPermutation2.
+Qed.
+
+Lemma eval_sum_of env venv : forall l a,
+  eval env venv (sum_of a l) = fold_left oadd (map (eval env venv) l) (eval env venv a).
+Proof. induction l; simpl; intros; auto. rewrite IHl. reflexivity. Qed.
+Lemma eval_prod_of env venv : forall l a,
+  eval env venv (prod_of a l) = fold_left omul (map (eval env venv) l) (eval env venv a).
+Proof. induction l; simpl; intros; auto. rewrite IHl. reflexivity. Qed.
+
+Lemma num0 : num_val ["0"] [] = 0%Qc.
+Proof. apply Qc_is_canon. reflexivity. Qed.
+Lemma num1 : num_val ["1"] [] = 1%Qc.
+Proof. apply Qc_is_canon. reflexivity. Qed.
+
+Lemma eval_sum_list env venv l :
+  eval env venv (sum_list l) = fold_left oadd (map (eval env venv) l) (Some 0%Qc).
+Proof.
+  destruct l as [|a r]; simpl.
+  - rewrite num0. reflexivity.
+  - rewrite eval_sum_of. f_equal. destruct (eval env venv a); simpl; [f_equal; ring|reflexivity].
+Qed.
+Lemma eval_prod_list env venv l :
+  eval env venv (prod_list l) = fold_left omul (map (eval env venv) l) (Some 1%Qc).
+Proof.
+  destruct l as [|a r]; simpl.
+  - rewrite num1. reflexivity.
+  - rewrite eval_prod_of. f_equal. destruct (eval env venv a); simpl; [f_equal; ring|reflexivity].
+Qed.
+
+Theorem eval_sum_perm env venv l l' : Permutation l l' ->
+  eval env venv (sum_list l) = eval env venv (sum_list l').
+Proof.
+  intros P. rewrite !eval_sum_list. apply fold_left_perm; [apply oadd_comm|apply oadd_assoc|].
+  apply Permutation_map, P.
+Qed.
+Theorem eval_prod_perm env venv l l' : Permutation l l' ->
+  eval env venv (prod_list l) = eval env venv (prod_list l').
+Proof.
+  intros P. rewrite !eval_prod_list. apply fold_left_perm; [apply omul_comm|apply omul_assoc|].
+  apply Permutation_map, P.
+Qed.
+
+
+(* ================================================================== part LP2 *)
+(* ------------------------------------------------------------------ Python string helpers *)
+Definition notin (c : ascii) (s : str) : bool := forallb (fun d => negb (Ascii.eqb d c)) s.
+
+Lemma notin_app c a b : notin c (a ++ b) = notin c a && notin c b.
+Proof. apply forallb_app. Qed.
+
+Lemma prefix_app p r : prefix p (p ++ r) = true.
+Proof. induction p; simpl; auto. rewrite Ascii.eqb_refl. auto. Qed.
+
+Lemma skipn_app_len (p r : str) : skipn (List.length p) (p ++ r) = r.
+Proof. induction p; simpl; auto. Qed.
+
+Lemma prefix_has c : forall p s, prefix p s = true -> In c p -> notin c s = false.
+Proof.
+  induction p as [|a p IH]; intros s H I; [destruct I|].
+  destruct s as [|b s]; simpl in H; [discriminate|].
+  apply andb_true_iff in H. destruct H as [E H]. apply Ascii.eqb_eq in E. subst b.
+  simpl. destruct I as [->|I].
+  - rewrite Ascii.eqb_refl. reflexivity.
+  - rewrite (IH _ H I). apply andb_false_r.
+Qed.
+
+Lemma notin_tail c a s : notin c (a :: s) = true -> notin c s = true.
+Proof. simpl. intros H. apply andb_true_iff in H. tauto. Qed.
+
+Lemma find_absent c p : In c p -> forall s, notin c s = true -> find p s = None.
+Proof.
+  intros I. induction s as [|a s IH]; intros N.
+  - simpl. destruct (prefix p []) eqn:E; auto. rewrite (prefix_has c _ _ E I) in N. discriminate.
+  - simpl. destruct (prefix p (a :: s)) eqn:E.
+    + rewrite (prefix_has c _ _ E I) in N. discriminate.
+    + rewrite (IH (notin_tail _ _ _ N)). reflexivity.
+Qed.
+Lemma contains_absent c p s : In c p -> notin c s = true -> contains p s = false.
+Proof. intros I N. unfold contains. rewrite (find_absent c p I s N). reflexivity. Qed.
+Lemma split_first_absent c p : In c p -> forall s, notin c s = true -> split_first p s = None.
+Proof.
+  intros I. induction s as [|a s IH]; intros N.
+  - simpl. destruct (prefix p []) eqn:E; auto. rewrite (prefix_has c _ _ E I) in N. discriminate.
+  - simpl. destruct (prefix p (a :: s)) eqn:E.
+    + rewrite (prefix_has c _ _ E I) in N. discriminate.
+    + rewrite (IH (notin_tail _ _ _ N)). reflexivity.
+Qed.
+
+Lemma find_prefix p s : prefix p s = true -> find p s = Some 0%nat.
+Proof. intros H. destruct s; simpl; rewrite H; reflexivity. Qed.
+
+Lemma contains_mid p : forall l r, contains p (l ++ p ++ r) = true.
+Proof.
+  unfold contains. induction l as [|a l IH]; intros r.
+  - cbn [app]. rewrite find_prefix; auto. apply prefix_app.
+  - cbn [app find]. destruct (prefix p (a :: l ++ p ++ r)); auto.
+    specialize (IH r). destruct (find p (l ++ p ++ r)); simpl; auto.
+Qed.
+
+(* splitting at the first occurrence: the pattern is a :: c :: q, and c does not occur in l *)
+Lemma split_first_prefix p s : prefix p s = true -> split_first p s = Some ([], skipn (List.length p) s).
+Proof. intros H. destruct s; simpl; rewrite H; reflexivity. Qed.
+Lemma split_first_step p x s : prefix p (x :: s) = false ->
+  split_first p (x :: s) = match split_first p s with Some (l, r) => Some (x :: l, r) | None => None end.
+Proof. intros H. simpl. rewrite H. reflexivity. Qed.
+
+Lemma split_first_mid p a c q : p = a :: c :: q -> forall l r, notin c l = true -> a <> c ->
+  split_first p (l ++ p ++ r) = Some (l, r).
+Proof.
+  intros Ep. induction l as [|x l IH]; intros r N D.
+  - rewrite app_nil_l. rewrite split_first_prefix by apply prefix_app. rewrite skipn_app_len. reflexivity.
+  - rewrite <- app_comm_cons. rewrite split_first_step.
+    + rewrite (IH r (notin_tail _ _ _ N) D). reflexivity.
+    + subst p. cbn [prefix]. destruct (Ascii.eqb a x) eqn:E; auto. cbn [andb].
+      destruct l as [|y l]; cbn [app].
+      * cbn [prefix]. destruct (Ascii.eqb c a) eqn:E2; auto. apply Ascii.eqb_eq in E2. congruence.
+      * cbn [prefix]. simpl in N. destruct (Ascii.eqb c y) eqn:E2; auto. apply Ascii.eqb_eq in E2. subst y.
+        rewrite Ascii.eqb_refl in N. rewrite andb_false_r in N. discriminate.
+Qed.
+
+(* two-character patterns ?= cannot occur when the only `=` is the one in " = " *)
+Lemma find2_no_eq a : forall r, notin "=" r = true -> find [a; "="] r = None.
+Proof. intros. apply (find_absent "="); simpl; auto. Qed.
+
+Lemma find_step p x s : prefix p (x :: s) = false -> find p (x :: s) = option_map S (find p s).
+Proof. intros H. simpl. rewrite H. reflexivity. Qed.
+
+Lemma prefix2_head a b x s : Ascii.eqb a x = false -> prefix [a; b] (x :: s) = false.
+Proof. intros H. simpl. rewrite H. reflexivity. Qed.
+Lemma prefix2_second a b x y s : Ascii.eqb b y = false -> prefix [a; b] (x :: y :: s) = false.
+Proof. intros H. simpl. rewrite H. apply andb_false_r. Qed.
+Lemma prefix2_short a b x : prefix [a; b] [x] = false.
+Proof. simpl. apply andb_false_r. Qed.
+
+Lemma contains2_assign a : a <> " " -> forall l r, notin "=" l = true -> notin "=" r = true ->
+  contains [a; "="] (l ++ s2l " = " ++ r) = false.
+Proof.
+  intros D. assert (Da : Ascii.eqb a " " = false) by (destruct (Ascii.eqb a " ") eqn:E; auto; apply Ascii.eqb_eq in E; congruence).
+  unfold contains. induction l as [|x l IH]; intros r Nl Nr.
+  - change ([] ++ s2l " = " ++ r) with (" " :: "=" :: " " :: r).
+    rewrite find_step by (apply prefix2_head; exact Da).
+    rewrite find_step by (apply prefix2_second; reflexivity).
+    rewrite find_step by (apply prefix2_head; exact Da).
+    rewrite (find2_no_eq a r Nr). reflexivity.
+  - rewrite <- app_comm_cons. rewrite find_step.
+    + specialize (IH r (notin_tail _ _ _ Nl) Nr).
+      destruct (find [a; "="] (l ++ s2l " = " ++ r)); [discriminate|reflexivity].
+    + destruct l as [|y l].
+      * change ([] ++ s2l " = " ++ r) with (" " :: "=" :: " " :: r). apply prefix2_second. reflexivity.
+      * rewrite <- app_comm_cons. apply prefix2_second. simpl in Nl.
+        destruct (Ascii.eqb y "=") eqn:E2.
+        -- rewrite andb_false_r in Nl. discriminate.
+        -- rewrite Ascii.eqb_sym. exact E2.
+Qed.
+
+Lemma remove_char_absent c : forall s, notin c s = true -> remove_char c s = s.
+Proof.
+  induction s as [|a s IH]; simpl; intros N; auto.
+  apply andb_true_iff in N. destruct N as [N1 N2]. destruct (Ascii.eqb a c); [discriminate|]. rewrite IH; auto.
+Qed.
+
+Lemma replace_drop_last c : forall x n, notin c x = true -> (List.length x < n)%nat ->
+  replace_fuel n [c] [] (x ++ [c]) = x.
+Proof.
+  induction x as [|a x IH]; intros n N L.
+  - destruct n; [inversion L|]. cbn. rewrite Ascii.eqb_refl. cbn. destruct n; reflexivity.
+  - destruct n; [inversion L|]. simpl in N. apply andb_true_iff in N. destruct N as [N1 N2].
+    cbn [app replace_fuel prefix]. rewrite Ascii.eqb_sym. destruct (Ascii.eqb a c); [discriminate|]. cbn [andb].
+    rewrite IH; auto. simpl in L. lia.
+Qed.
+
+(* identifiers consist of letters, digits, underscores: none of the characters the string handling looks for *)
+Lemma idchar_notin c x : is_idchar c = false -> forallb is_idchar x = true -> notin c x = true.
+Proof.
+  intros H. induction x as [|a x IH]; simpl; auto. intros F. apply andb_true_iff in F. destruct F as [F1 F2].
+  rewrite IH; auto. destruct (Ascii.eqb a c) eqn:E; auto. apply Ascii.eqb_eq in E. subst. congruence.
+Qed.
+Lemma wf_id_idchars x : wf_id x = true -> forallb is_idchar x = true.
+Proof.
+  destruct x as [|c cs]; simpl; [discriminate|]. intros H. apply andb_true_iff in H. destruct H as [A B].
+  rewrite B. unfold is_idchar. rewrite A. reflexivity.
+Qed.
+Lemma wf_id_notin c x : is_idchar c = false -> wf_id x = true -> notin c x = true.
+Proof. intros. apply idchar_notin; auto. apply wf_id_idchars; auto. Qed.
+
+(* ------------------------------------------------------------------ lhs forms *)
+Lemma split_equation_assign l r : notin "=" l = true -> notin "=" r = true ->
+  split_equation (l ++ s2l " = " ++ r) = Some (l, r).
+Proof.
+  intros Nl Nr. unfold split_equation.
+  change (s2l "+=") with ["+"; "="]. rewrite (contains2_assign "+"); auto; [|discriminate].
+  assert (C : contains ["="] (l ++ s2l " = " ++ r) = true).
+  { change (s2l " = ") with ([" "] ++ ["="] ++ [" "]). rewrite <- !app_assoc. rewrite (app_assoc l [" "]).
+    apply contains_mid. }
+  rewrite C. cbn [negb].
+  assert (NA : not_assign_only (l ++ s2l " = " ++ r) = false).
+  { unfold not_assign_only. cbn [existsb s2l list_ascii_of_string].
+    rewrite (contains2_assign "<"), (contains2_assign ">"), (contains2_assign "="), (contains2_assign "!"); auto; discriminate. }
+  rewrite NA. rewrite (contains_mid (s2l " = ") l r).
+  apply (split_first_mid (s2l " = ") " " "=" [" "]); auto. discriminate.
+Qed.
+
+Definition de_eqn (x r : str) : cres := CEqn {| e_lhs := x; e_key := x; e_de := true; e_rhs := r |}.
+
+Theorem lhs_ddt x r : wf_id x = true -> notin "=" r = true ->
+  classify (s2l "d/dt * " ++ x ++ s2l " = " ++ r) = de_eqn x r.
+Proof.
+  intros W N. unfold classify. rewrite (app_assoc (s2l "d/dt * ") x).
+  rewrite split_equation_assign; auto.
+  2:{ rewrite notin_app. rewrite (wf_id_notin "=" x); auto. }
+  assert (C1 : contains (s2l "d/dt") (s2l "d/dt * " ++ x) = true)
+    by (apply (contains_mid (s2l "d/dt") [] (s2l " * " ++ x))).
+  assert (C2 : split_first ["*"] (s2l "d/dt * " ++ x) = Some (s2l "d/dt ", " " :: x)) by reflexivity.
+  rewrite C1, C2.
+  assert (R1 : remove_char "*" (" " :: x) = " " :: x) by (apply remove_char_absent; simpl; apply wf_id_notin; auto).
+  rewrite R1. unfold mk_eqn, de_eqn, before.
+  assert (R2 : split_first ["("] (" " :: x) = None)
+    by (apply (split_first_absent "("); [simpl; auto|simpl; apply wf_id_notin; auto]).
+  rewrite R2.
+  assert (R3 : remove_char " " (" " :: x) = x).
+  { change (remove_char " " (" " :: x)) with (remove_char " " x). apply remove_char_absent. apply wf_id_notin; auto. }
+  rewrite R3. reflexivity.
+Qed.
+
+Theorem lhs_prime x r : wf_id x = true -> notin "=" r = true ->
+  classify (x ++ s2l "' = " ++ r) = de_eqn x r.
+Proof.
+  intros W N. unfold classify.
+  change (s2l "' = ") with (["'"] ++ s2l " = "). rewrite <- app_assoc. rewrite (app_assoc x ["'"]).
+  rewrite split_equation_assign; auto.
+  2:{ rewrite notin_app. rewrite (wf_id_notin "=" x); auto. }
+  rewrite (contains_absent "/" (s2l "d/dt")); [|simpl; auto|].
+  2:{ rewrite notin_app. rewrite (wf_id_notin "/" x); auto. }
+  replace (x ++ ["'"]) with (x ++ ["'"] ++ []) by reflexivity.
+  rewrite (contains_mid ["'"] x []).
+  unfold py_replace. rewrite replace_drop_last; [|apply wf_id_notin; auto|rewrite app_length; simpl; lia].
+  unfold mk_eqn, de_eqn, before.
+  rewrite (split_first_absent "(" ["("]); [|simpl; auto|apply wf_id_notin; auto].
+  rewrite (remove_char_absent " "); [reflexivity|apply wf_id_notin; auto].
+Qed.
+
+Theorem lhs_forms x r : wf_id x = true -> notin "=" r = true ->
+  classify (s2l "d/dt * " ++ x ++ s2l " = " ++ r) = classify (x ++ s2l "' = " ++ r) /\
+  classify (x ++ s2l "' = " ++ r) = de_eqn x r.
+Proof. intros. rewrite lhs_ddt, lhs_prime; auto. Qed.
+
+
+(* ================================================================== part LP3 *)
+(* ------------------------------------------------------------------ tokenizer *)
+(* lexical well-formedness (what the tokenizer itself guarantees / needs) *)
+Definition lwf_tok (t : tok) : bool :=
+  match t with
+  | TNum ip fp => match ip with [] => false | _ => forallb is_digit ip && forallb is_digit fp end
+  | TId x => wf_id x
+  | _ => true
+  end.
+
+Lemma wf_lwf t : wf_tok t = true -> lwf_tok t = true.
+Proof.
+  destruct t; simpl; auto. unfold wf_num. destruct ip; auto. intros H.
+  apply andb_true_iff in H. tauto.
+Qed.
+
+Ltac neq_char := let E := fresh "E" in
+  match goal with |- Ascii.eqb ?c ?k = false =>
+    destruct (Ascii.eqb c k) eqn:E; [apply Ascii.eqb_eq in E; subst; discriminate|reflexivity] end.
+
+Lemma digit_not_space c : is_digit c = true -> is_space c = false.
+Proof. unfold is_digit, is_space. destruct (code c =? 32)%nat eqn:A, (code c =? 9)%nat eqn:B; auto;
+  [apply Nat.eqb_eq in A; rewrite A|apply Nat.eqb_eq in A; rewrite A|apply Nat.eqb_eq in B; rewrite B]; discriminate. Qed.
+Lemma alpha_not_space c : is_alpha c = true -> is_space c = false.
+Proof. unfold is_alpha, is_space. destruct (code c =? 32)%nat eqn:A, (code c =? 9)%nat eqn:B; auto;
+  [apply Nat.eqb_eq in A; rewrite A|apply Nat.eqb_eq in A; rewrite A|apply Nat.eqb_eq in B; rewrite B]; discriminate. Qed.
+Lemma digit_not_alpha c : is_digit c = true -> is_alpha c = false.
+Proof.
+  unfold is_digit, is_alpha. intros H. apply andb_true_iff in H. destruct H as [A B].
+  apply Nat.leb_le in A. apply Nat.leb_le in B.
+  destruct (65 <=? code c)%nat eqn:C1; [apply Nat.leb_le in C1; lia|].
+  destruct (97 <=? code c)%nat eqn:C2; [apply Nat.leb_le in C2; lia|].
+  destruct (code c =? 95)%nat eqn:C3; [apply Nat.eqb_eq in C3; lia|]. reflexivity.
+Qed.
+
+Lemma start_alpha c : is_alpha c = true -> start c = Some ([], SId [c]).
+Proof. intros H. unfold start. rewrite (alpha_not_space c H), H. reflexivity. Qed.
+Lemma start_digit c : is_digit c = true -> start c = Some ([], SNum [c]).
+Proof. intros H. unfold start. rewrite (digit_not_space c H), (digit_not_alpha c H), H. reflexivity. Qed.
+
+Lemma lex_nil_out st c s st' : step st c = Some ([], st') -> lex st (c :: s) = lex st' s.
+Proof. intros H. simpl. rewrite H. destruct (lex st' s); reflexivity. Qed.
+Lemma lex_one_out st c s t : step st c = Some ([t], S0) -> lex st (c :: s) = option_map (cons t) (lex S0 s).
+Proof. intros H. simpl. rewrite H. destruct (lex S0 s); reflexivity. Qed.
+Lemma lex_emit st c s t : step st c = emit t (start c) -> lex st (c :: s) = option_map (cons t) (lex S0 (c :: s)).
+Proof.
+  intros H. simpl. rewrite H. destruct (start c) as [[o st']|]; simpl; auto.
+  destruct (lex st' s); reflexivity.
+Qed.
+
+Lemma lex_spaces n s : lex S0 (blanks n ++ s) = lex S0 s.
+Proof. induction n; [reflexivity|]. unfold blanks in *. cbn [repeat app].
+  rewrite (lex_nil_out S0 " " _ S0); auto. Qed.
+
+Lemma lex_id_run : forall cs acc tail, forallb is_idchar cs = true ->
+  lex (SId acc) (cs ++ tail) = lex (SId (acc ++ cs)) tail.
+Proof.
+  induction cs as [|c cs IH]; intros acc tail H; simpl app.
+  - rewrite app_nil_r. reflexivity.
+  - simpl in H. apply andb_true_iff in H. destruct H as [H1 H2].
+    rewrite (lex_nil_out (SId acc) c _ (SId (acc ++ [c]))); [|simpl; rewrite H1; reflexivity].
+    rewrite IH; auto. rewrite <- app_assoc. reflexivity.
+Qed.
+Lemma lex_num_run : forall cs acc tail, forallb is_digit cs = true ->
+  lex (SNum acc) (cs ++ tail) = lex (SNum (acc ++ cs)) tail.
+Proof.
+  induction cs as [|c cs IH]; intros acc tail H; simpl app.
+  - rewrite app_nil_r. reflexivity.
+  - simpl in H. apply andb_true_iff in H. destruct H as [H1 H2].
+    rewrite (lex_nil_out (SNum acc) c _ (SNum (acc ++ [c]))); [|simpl; rewrite H1; reflexivity].
+    rewrite IH; auto. rewrite <- app_assoc. reflexivity.
+Qed.
+Lemma lex_frac_run : forall cs ip acc tail, forallb is_digit cs = true ->
+  lex (SFrac ip acc) (cs ++ tail) = lex (SFrac ip (acc ++ cs)) tail.
+Proof.
+  induction cs as [|c cs IH]; intros ip acc tail H; simpl app.
+  - rewrite app_nil_r. reflexivity.
+  - simpl in H. apply andb_true_iff in H. destruct H as [H1 H2].
+    rewrite (lex_nil_out (SFrac ip acc) c _ (SFrac ip (acc ++ [c]))); [|simpl; rewrite H1; reflexivity].
+    rewrite IH; auto. rewrite <- app_assoc. reflexivity.
+Qed.
+
+(* a character that may follow a token without being absorbed into it *)
+Definition term_ok (t : tok) (c : ascii) : bool :=
+  match t with
+  | TId _ => negb (is_idchar c)
+  | TNum _ _ => negb (is_digit c) && negb (Ascii.eqb c ".") && negb (is_alpha c)
+  | TMul => negb (Ascii.eqb c "*")
+  | _ => true
+  end.
+Definition ends_ok (t : tok) (tail : str) : bool := match tail with [] => true | c :: _ => term_ok t c end.
+
+Lemma lex_tok pw t tail : lwf_tok t = true -> ends_ok t tail = true ->
+  lex S0 (tok_text pw t ++ tail) = option_map (cons t) (lex S0 tail).
+Proof.
+  intros W E. destruct t; try (cbn [tok_text app]; apply lex_one_out; reflexivity).
+  - (* TNum *)
+    simpl in W. destruct ip as [|d ds]; [discriminate|]. apply andb_true_iff in W. destruct W as [W1 W2].
+    simpl in W1. apply andb_true_iff in W1. destruct W1 as [Wd Wds].
+    assert (END : forall fp', ends_ok (TNum (d :: ds) fp') tail = true ->
+             (forall c tl, tail = c :: tl -> step (SFrac (d :: ds) fp') c = emit (TNum (d :: ds) fp') (start c)) /\
+             (forall c tl, tail = c :: tl -> step (SNum (d :: ds)) c = emit (TNum (d :: ds) []) (start c))).
+    { intros fp' E'. split; intros c tl ->; simpl in E'; apply andb_true_iff in E'; destruct E' as [E1 E3];
+        apply andb_true_iff in E1; destruct E1 as [E1 E2]; apply negb_true_iff in E1, E2, E3; simpl; rewrite E1, E2, E3; reflexivity. }
+    destruct fp as [|f fs].
+    + cbn [tok_text]. rewrite <- app_comm_cons.
+      rewrite (lex_nil_out S0 d _ (SNum [d])); [|simpl; apply start_digit; auto].
+      rewrite lex_num_run; auto. cbn [app].
+      destruct tail as [|c tl]; [reflexivity|].
+      apply lex_emit. destruct (END [] E) as [_ H]. apply (H c tl eq_refl).
+    + cbn [tok_text]. rewrite <- app_assoc. rewrite <- app_comm_cons.
+      rewrite (lex_nil_out S0 d _ (SNum [d])); [|simpl; apply start_digit; auto].
+      rewrite lex_num_run; auto. change ([d] ++ ds) with (d :: ds).
+      change (("." :: f :: fs) ++ tail) with ("." :: ((f :: fs) ++ tail)).
+      rewrite (lex_nil_out (SNum (d :: ds)) "." _ (SFrac (d :: ds) [])); [|reflexivity].
+      rewrite lex_frac_run; auto. change ([] ++ f :: fs) with (f :: fs).
+      destruct tail as [|c tl]; [reflexivity|].
+      apply lex_emit. destruct (END (f :: fs) E) as [H _]. apply (H c tl eq_refl).
+  - (* TId *)
+    simpl in W. destruct x as [|c cs]; [discriminate|]. apply andb_true_iff in W. destruct W as [W1 W2].
+    cbn [tok_text]. rewrite <- app_comm_cons.
+    rewrite (lex_nil_out S0 c _ (SId [c])); [|simpl; apply start_alpha; auto].
+    rewrite lex_id_run; auto. cbn [app].
+    destruct tail as [|a tl]; [reflexivity|].
+    apply lex_emit. simpl in E. apply negb_true_iff in E. simpl. rewrite E. reflexivity.
+  - (* TMul *)
+    cbn [tok_text app]. rewrite (lex_nil_out S0 "*" _ SStar); [|reflexivity].
+    destruct tail as [|a tl]; [reflexivity|].
+    apply lex_emit. simpl in E. apply negb_true_iff in E. simpl. rewrite E. reflexivity.
+  - (* TPow *)
+    destruct pw; cbn [tok_text app].
+    + rewrite (lex_nil_out S0 "*" _ SStar); [|reflexivity]. apply lex_one_out. reflexivity.
+    + apply lex_one_out. reflexivity.
+Qed.
+
+Lemma term_ok_space t : term_ok t " " = true.
+Proof. destruct t; reflexivity. Qed.
+
+Lemma alpha_not_star c : is_alpha c = true -> Ascii.eqb c "*" = false.
+Proof. intros H. neq_char. Qed.
+Lemma digit_not_star c : is_digit c = true -> Ascii.eqb c "*" = false.
+Proof. intros H. neq_char. Qed.
+
+Lemma first_char_ok pw t u rest : need_sep t u = false -> lwf_tok u = true ->
+  ends_ok t (tok_text pw u ++ rest) = true.
+Proof.
+  intros N W. unfold need_sep in N. apply orb_false_iff in N. destruct N as [N1 N2].
+  destruct t; try (unfold ends_ok; destruct (tok_text pw u ++ rest); reflexivity).
+  - (* t = TNum *) simpl in N1. destruct u; try discriminate; try reflexivity. destruct pw; reflexivity.
+  - (* t = TId *) simpl in N1. destruct u; try discriminate; try reflexivity. destruct pw; reflexivity.
+  - (* t = TMul *) destruct u; try discriminate; try reflexivity.
+    + simpl in W. destruct ip as [|d ds]; [discriminate|]. apply andb_true_iff in W. destruct W as [W1 _].
+      simpl in W1. apply andb_true_iff in W1. destruct W1 as [Wd _].
+      destruct fp; cbn [tok_text app ends_ok term_ok]; rewrite (digit_not_star d Wd); reflexivity.
+    + simpl in W. destruct x as [|c cs]; [discriminate|]. apply andb_true_iff in W. destruct W as [W1 _].
+      cbn [tok_text app ends_ok term_ok]. rewrite (alpha_not_star c W1). reflexivity.
+Qed.
+
+Lemma ends_ok_render sp pw i t r : forallb lwf_tok r = true -> ends_ok t (render sp pw i (Some t) r) = true.
+Proof.
+  intros W. destruct r as [|u r]; cbn [render].
+  - destruct (sp i); [reflexivity|]. simpl. apply term_ok_space.
+  - simpl in W. apply andb_true_iff in W. destruct W as [Wu _].
+    destruct (need_sep t u) eqn:N.
+    + rewrite Nat.add_1_r. simpl. apply term_ok_space.
+    + rewrite Nat.add_0_r. destruct (sp i); [|simpl; apply term_ok_space].
+      cbn [blanks repeat app]. apply first_char_ok; auto.
+Qed.
+
+Theorem lex_render sp pw : forall ts i prev, forallb lwf_tok ts = true ->
+  lex S0 (render sp pw i prev ts) = Some ts.
+Proof.
+  induction ts as [|t r IH]; intros i prev W; cbn [render].
+  - rewrite <- (app_nil_r (blanks (sp i))). rewrite lex_spaces. reflexivity.
+  - pose proof W as W'. simpl in W. apply andb_true_iff in W. destruct W as [Wt Wr].
+    rewrite lex_spaces. rewrite lex_tok; auto.
+    + rewrite IH; auto.
+    + apply ends_ok_render; auto.
+Qed.
+
+Theorem tokenize_render sp pw ts : forallb lwf_tok ts = true -> tokenize (render sp pw 0 None ts) = Some ts.
+Proof. apply lex_render. Qed.
+
+(* spacing and the spelling of the power operator do not matter *)
+Theorem tokenize_respace sp pw sp' pw' ts : forallb lwf_tok ts = true ->
+  tokenize (render sp pw 0 None ts) = tokenize (render sp' pw' 0 None ts).
+Proof. intros. rewrite !tokenize_render; auto. Qed.
+
+Theorem pow_same_token : tokenize (s2l "^") = Some [TPow] /\ tokenize (s2l "**") = Some [TPow].
+Proof. split; reflexivity. Qed.
+
+
+(* ================================================================== part LP4 *)
+(* ------------------------------------------------------------------ parser: one-step unfoldings *)
+Lemma pE_S n ts : pE (S n) ts = match pT n ts with Some (a, r) => pEl n a r | None => None end.
+Proof. reflexivity. Qed.
+Lemma pT_S n ts : pT (S n) ts = match pU n ts with Some (a, r) => pTl n a r | None => None end.
+Proof. reflexivity. Qed.
+Lemma pP_S n ts : pP (S n) ts =
+  match pA n ts with
+  | Some (a, TPow :: r) => match pU n r with Some (b, r') => Some (Pow a b, r') | None => None end
+  | other => other
+  end.
+Proof. reflexivity. Qed.
+Lemma pEl_plus n acc r : pEl (S n) acc (TPlus :: r) = match pT n r with Some (b, r') => pEl n (Add acc b) r' | None => None end.
+Proof. reflexivity. Qed.
+Lemma pEl_minus n acc r : pEl (S n) acc (TMinus :: r) = match pT n r with Some (b, r') => pEl n (Sub acc b) r' | None => None end.
+Proof. reflexivity. Qed.
+Lemma pTl_mul n acc r : pTl (S n) acc (TMul :: r) = match pU n r with Some (b, r') => pTl n (Mul acc b) r' | None => None end.
+Proof. reflexivity. Qed.
+Lemma pTl_div n acc r : pTl (S n) acc (TDiv :: r) = match pU n r with Some (b, r') => pTl n (Div acc b) r' | None => None end.
+Proof. reflexivity. Qed.
+Lemma pU_minus n r : pU (S n) (TMinus :: r) = match pU n r with Some (a, r') => Some (Neg a, r') | None => None end.
+Proof. reflexivity. Qed.
+Lemma pU_nominus n t r : t <> TMinus -> pU (S n) (t :: r) = pP n (t :: r).
+Proof. destruct t; try reflexivity. congruence. Qed.
+Lemma pA_paren n r : pA (S n) (TLp :: r) = match pE n r with Some (e, TRp :: r') => Some (e, r') | _ => None end.
+Proof. reflexivity. Qed.
+
+(* ------------------------------------------------------------------ contexts *)
+Definition P (lvl : nat) : nat -> list tok -> pres :=
+  match lvl with 0 => pE | 1 => pT | 2 => pU | 3 => pP | _ => pA end.
+Definition loopk (lvl n : nat) (e : expr) (rest : list tok) : pres :=
+  match lvl with 0 => pEl n e rest | 1 => pTl n e rest | _ => Some (e, rest) end.
+(* tokens that would be absorbed by a level deeper than lvl *)
+Definition deeper (lvl : nat) (t : tok) : bool :=
+  match t with TLp => true | TPow => (lvl <? 4)%nat | TMul | TDiv => (lvl =? 0)%nat | _ => false end.
+Definition stop (lvl : nat) (rest : list tok) : bool :=
+  match rest with [] => true | t :: _ => negb (deeper lvl t) end.
+Definition lvl_ok (l : nat) : Prop := l = 0 \/ l = 1 \/ l = 2 \/ l = 4.
+
+Definition Concl (lvl : nat) (e : expr) (X : list tok) (c : nat) : Prop :=
+  forall rest k res, stop lvl rest = true -> (forall m, m >= k -> loopk lvl m e rest = Some res) ->
+  forall n, n >= c + k -> P lvl n (X ++ rest) = Some res.
+
+Ltac rwc H := let HT := fresh "HT" in pose proof H as HT; cbn [P loopk] in HT; rewrite HT; clear HT.
+
+Lemma concl_mono lvl e X c c' : Concl lvl e X c -> c <= c' -> Concl lvl e X c'.
+Proof. intros H L rest k res S1 Lp n Hn. apply (H rest k res S1 Lp). lia. Qed.
+
+Lemma stop_to2 lvl rest : lvl <= 2 -> stop lvl rest = true -> stop 2 rest = true.
+Proof.
+  intros L H. destruct rest as [|t r]; auto. destruct t; auto; simpl in *;
+  destruct lvl as [|[|[|l]]]; simpl in *; try discriminate; auto; lia.
+Qed.
+Lemma stop_to1 rest : stop 0 rest = true -> stop 1 rest = true.
+Proof. destruct rest as [|t r]; auto. destruct t; auto. Qed.
+Lemma stop_to4 lvl rest : lvl <= 4 -> stop lvl rest = true -> stop 4 rest = true.
+Proof.
+  intros L H. destruct rest as [|t r]; auto. destruct t; auto; simpl in *.
+Qed.
+
+Lemma pTl_stop e rest : stop 0 rest = true -> forall m, m >= 1 -> pTl m e rest = Some (e, rest).
+Proof.
+  intros H m Hm. destruct m; [lia|]. destruct rest as [|t r]; [reflexivity|].
+  destruct t; try reflexivity; discriminate.
+Qed.
+Lemma pEl_rp e rest : forall m, m >= 1 -> pEl m e (TRp :: rest) = Some (e, TRp :: rest).
+Proof. intros m Hm. destruct m; [lia|]. reflexivity. Qed.
+Lemma pEl_nil e : forall m, m >= 1 -> pEl m e [] = Some (e, []).
+Proof. intros m Hm. destruct m; [lia|]. reflexivity. Qed.
+
+Lemma pP_done n X e rest : pA n X = Some (e, rest) -> stop 2 rest = true -> pP (S n) X = Some (e, rest).
+Proof.
+  intros H S2. rewrite pP_S, H. destruct rest as [|t r]; auto. destruct t; auto. discriminate.
+Qed.
+
+(* from a result at the unary level to the contexts 0, 1, 2 *)
+Lemma from_U e X c :
+  (forall rest, stop 2 rest = true -> forall n, n >= c -> pU n (X ++ rest) = Some (e, rest)) ->
+  forall lvl, lvl = 0 \/ lvl = 1 \/ lvl = 2 -> Concl lvl e X (c + 3).
+Proof.
+  intros U lvl [->|[->| ->]] rest k res S1 Lp n Hn.
+  - (* 0 *) destruct n as [|n1]; [lia|]. cbn [P]. rewrite pE_S.
+    destruct n1 as [|n2]; [lia|]. rewrite pT_S.
+    rewrite (U rest (stop_to2 0 rest ltac:(lia) S1) n2 ltac:(lia)).
+    rewrite (pTl_stop e rest S1 n2 ltac:(lia)). apply Lp. lia.
+  - (* 1 *) destruct n as [|n1]; [lia|]. cbn [P]. rewrite pT_S.
+    rewrite (U rest (stop_to2 1 rest ltac:(lia) S1) n1 ltac:(lia)). apply Lp. lia.
+  - (* 2 *) cbn [P]. rewrite (U rest S1 n ltac:(lia)). specialize (Lp k (le_n k)). simpl in Lp. exact Lp.
+Qed.
+
+(* from the multiplicative level to the contexts 0, 1 *)
+Lemma from_T e X c : Concl 1 e X c -> forall lvl, lvl = 0 \/ lvl = 1 -> Concl lvl e X (c + 2).
+Proof.
+  intros T lvl [->| ->].
+  - intros rest k res S1 Lp n Hn. destruct n as [|n1]; [lia|]. cbn [P]. rewrite pE_S.
+    rwc (T rest 1 (e, rest) (stop_to1 rest S1) (pTl_stop e rest S1) n1 ltac:(lia)). apply Lp. lia.
+  - apply (concl_mono 1 e X c); auto. lia.
+Qed.
+
+Definition starts_nominus (X : list tok) : Prop :=
+  forall Y, exists t r, X ++ Y = t :: r /\ t <> TMinus.
+
+Lemma from_A e X c :
+  (forall rest, stop 4 rest = true -> forall n, n >= c -> pA n (X ++ rest) = Some (e, rest)) ->
+  starts_nominus X -> forall lvl, lvl_ok lvl -> Concl lvl e X (c + 5).
+Proof.
+  intros A Hd lvl [->|[->|[->| ->]]].
+  1-3: apply (concl_mono _ e X (c + 2 + 3)); [|lia]; apply from_U; auto;
+    intros rest S2 n Hn; destruct n as [|n1]; [lia|]; destruct (Hd rest) as (t & r & E & NE);
+    rewrite E, pU_nominus by auto; rewrite <- E; destruct n1 as [|n2]; [lia|];
+    apply pP_done; auto; apply A; [apply (stop_to4 2); auto|lia].
+  intros rest k res S1 Lp n Hn. cbn [P]. rewrite (A rest S1 n ltac:(lia)).
+  specialize (Lp k (le_n k)). simpl in Lp. exact Lp.
+Qed.
+
+Lemma paren_concl e X c : Concl 0 e X c -> forall lvl, lvl_ok lvl -> Concl lvl e (TLp :: X ++ [TRp]) (c + 7).
+Proof.
+  intros C0 lvl OK. apply (concl_mono _ e _ (c + 2 + 5)); [|lia]. apply from_A; auto.
+  - intros rest _ n Hn. destruct n as [|n1]; [lia|].
+    replace ((TLp :: X ++ [TRp]) ++ rest) with (TLp :: (X ++ TRp :: rest)) by (simpl; rewrite <- app_assoc; reflexivity).
+    rewrite pA_paren.
+    rwc (C0 (TRp :: rest) 1 (e, TRp :: rest) eq_refl (pEl_rp e rest) n1 ltac:(lia)). reflexivity.
+  - intros Y. exists TLp, ((X ++ [TRp]) ++ Y). split; [reflexivity|discriminate].
+Qed.
+
+Lemma wrap_concl e B c : Concl 0 e B c -> forall w lvl, lvl_ok lvl -> Concl lvl e (wrap (S w) B) (c + 7 * S w).
+Proof.
+  intros C0. induction w as [|w IH]; intros lvl OK.
+  - apply (concl_mono _ e _ (c + 7)); [|lia]. apply (paren_concl e B c C0 lvl OK).
+  - apply (concl_mono _ e _ (c + 7 * S w + 7)); [|lia].
+    apply (paren_concl e (wrap (S w) B) _ (IH 0 (or_introl eq_refl)) lvl OK).
+Qed.
+
+(* ------------------------------------------------------------------ the constructors *)
+Lemma good_num ip fp : wf_num ip fp = true -> forall lvl, lvl_ok lvl -> Concl lvl (Num ip fp) [TNum ip fp] 6.
+Proof.
+  intros W. apply (from_A _ _ 1).
+  - intros rest _ n Hn. destruct n; [lia|]. simpl.
+    unfold wf_num in W. destruct ip; [discriminate|]. apply andb_true_iff in W. destruct W as [_ W].
+    apply negb_true_iff in W. rewrite W. reflexivity.
+  - intros Y. exists (TNum ip fp), Y. split; [reflexivity|discriminate].
+Qed.
+
+Lemma good_var x : forall lvl, lvl_ok lvl -> Concl lvl (Var x) [TId x] 6.
+Proof.
+  apply (from_A _ _ 1).
+  - intros rest S4 n Hn. destruct n; [lia|]. simpl. destruct rest as [|t r]; [reflexivity|].
+    destruct t; try reflexivity. discriminate.
+  - intros Y. exists (TId x), Y. split; [reflexivity|discriminate].
+Qed.
+
+Lemma good_neg a A ca : Concl 2 a A ca ->
+  forall lvl, lvl = 0 \/ lvl = 1 \/ lvl = 2 -> Concl lvl (Neg a) (TMinus :: A) (ca + 4).
+Proof.
+  intros Ca lvl Hl. apply (concl_mono _ _ _ (ca + 1 + 3)); [|lia]. apply from_U; auto.
+  intros rest S2 n Hn. destruct n as [|n1]; [lia|]. cbn [app]. rewrite pU_minus.
+  rwc (Ca rest 0 (a, rest) S2 (fun _ _ => eq_refl) n1 ltac:(lia)). reflexivity.
+Qed.
+
+Lemma good_pow a b A B ca cb : Concl 4 a A ca -> Concl 2 b B cb -> starts_nominus A ->
+  forall lvl, lvl = 0 \/ lvl = 1 \/ lvl = 2 -> Concl lvl (Pow a b) (A ++ TPow :: B) (ca + cb + 5).
+Proof.
+  intros Ca Cb Hd lvl Hl. apply (concl_mono _ _ _ (ca + cb + 2 + 3)); [|lia]. apply from_U; auto.
+  intros rest S2 n Hn. destruct n as [|n1]; [lia|].
+  replace ((A ++ TPow :: B) ++ rest) with (A ++ TPow :: B ++ rest) by (rewrite <- app_assoc; reflexivity).
+  destruct (Hd (TPow :: B ++ rest)) as (t & r & E & NE). rewrite E, pU_nominus by auto. rewrite <- E.
+  destruct n1 as [|n2]; [lia|]. rewrite pP_S.
+  rwc (Ca (TPow :: B ++ rest) 0 (a, TPow :: B ++ rest) eq_refl (fun _ _ => eq_refl) n2 ltac:(lia)).
+  rwc (Cb rest 0 (b, rest) S2 (fun _ _ => eq_refl) n2 ltac:(lia)). reflexivity.
+Qed.
+
+Lemma good_mul a b A B ca cb : Concl 1 a A ca -> Concl 2 b B cb ->
+  forall lvl, lvl = 0 \/ lvl = 1 -> Concl lvl (Mul a b) (A ++ TMul :: B) (ca + cb + 3).
+Proof.
+  intros Ca Cb lvl Hl. apply (concl_mono _ _ _ (ca + cb + 1 + 2)); [|lia]. apply from_T; auto.
+  intros rest k res S1 Lp n Hn.
+  replace ((A ++ TMul :: B) ++ rest) with (A ++ TMul :: B ++ rest) by (rewrite <- app_assoc; reflexivity).
+  apply (Ca (TMul :: B ++ rest) (cb + k + 1) res eq_refl); [|lia].
+  intros m Hm. destruct m as [|m1]; [lia|]. cbn [loopk]. rewrite pTl_mul.
+  rwc (Cb rest 0 (b, rest) (stop_to2 1 rest ltac:(lia) S1) (fun _ _ => eq_refl) m1 ltac:(lia)).
+  apply Lp. lia.
+Qed.
+Lemma good_div a b A B ca cb : Concl 1 a A ca -> Concl 2 b B cb ->
+  forall lvl, lvl = 0 \/ lvl = 1 -> Concl lvl (Div a b) (A ++ TDiv :: B) (ca + cb + 3).
+Proof.
+  intros Ca Cb lvl Hl. apply (concl_mono _ _ _ (ca + cb + 1 + 2)); [|lia]. apply from_T; auto.
+  intros rest k res S1 Lp n Hn.
+  replace ((A ++ TDiv :: B) ++ rest) with (A ++ TDiv :: B ++ rest) by (rewrite <- app_assoc; reflexivity).
+  apply (Ca (TDiv :: B ++ rest) (cb + k + 1) res eq_refl); [|lia].
+  intros m Hm. destruct m as [|m1]; [lia|]. cbn [loopk]. rewrite pTl_div.
+  rwc (Cb rest 0 (b, rest) (stop_to2 1 rest ltac:(lia) S1) (fun _ _ => eq_refl) m1 ltac:(lia)).
+  apply Lp. lia.
+Qed.
+
+Lemma good_add a b A B ca cb : Concl 0 a A ca -> Concl 1 b B cb ->
+  Concl 0 (Add a b) (A ++ TPlus :: B) (ca + cb + 2).
+Proof.
+  intros Ca Cb rest k res S1 Lp n Hn.
+  replace ((A ++ TPlus :: B) ++ rest) with (A ++ TPlus :: B ++ rest) by (rewrite <- app_assoc; reflexivity).
+  apply (Ca (TPlus :: B ++ rest) (cb + k + 2) res eq_refl); [|lia].
+  intros m Hm. destruct m as [|m1]; [lia|]. cbn [loopk]. rewrite pEl_plus.
+  rwc (Cb rest 1 (b, rest) (stop_to1 rest S1) (pTl_stop b rest S1) m1 ltac:(lia)).
+  apply Lp. lia.
+Qed.
+Lemma good_sub a b A B ca cb : Concl 0 a A ca -> Concl 1 b B cb ->
+  Concl 0 (Sub a b) (A ++ TMinus :: B) (ca + cb + 2).
+Proof.
+  intros Ca Cb rest k res S1 Lp n Hn.
+  replace ((A ++ TMinus :: B) ++ rest) with (A ++ TMinus :: B ++ rest) by (rewrite <- app_assoc; reflexivity).
+  apply (Ca (TMinus :: B ++ rest) (cb + k + 2) res eq_refl); [|lia].
+  intros m Hm. destruct m as [|m1]; [lia|]. cbn [loopk]. rewrite pEl_minus.
+  rwc (Cb rest 1 (b, rest) (stop_to1 rest S1) (pTl_stop b rest S1) m1 ltac:(lia)).
+  apply Lp. lia.
+Qed.
+
+(* ------------------------------------------------------------------ assembling pr *)
+Fixpoint cost (ps : pstyle) (e : expr) : nat :=
+  7 * (ps [] + 1) + 8 +
+  match e with
+  | Num _ _ | Var _ | Call _ _ => 0
+  | Neg a => cost (sub 0 ps) a
+  | Add a b | Sub a b | Mul a b | Div a b | Pow a b => cost (sub 0 ps) a + cost (sub 1 ps) b
+  end.
+
+Lemma assemble e B cb (ps : pstyle) lvl :
+  (forall l, lvl_ok l -> l <= natlvl e -> Concl l e B cb) -> lvl_ok lvl ->
+  Concl lvl e (wrap (ps [] + (if (natlvl e <? lvl)%nat then 1 else 0)) B) (cb + 7 * (ps [] + 1)).
+Proof.
+  intros G OK.
+  assert (G0 : Concl 0 e B cb) by (apply G; [left; reflexivity|lia]).
+  destruct (natlvl e <? lvl)%nat eqn:E.
+  - rewrite Nat.add_1_r. apply (concl_mono _ e _ (cb + 7 * S (ps []))); [|lia]. apply wrap_concl; auto.
+  - rewrite Nat.add_0_r. destruct (ps []) as [|w].
+    + cbn [wrap]. apply (concl_mono _ e _ cb); [|lia]. apply G; auto. apply Nat.ltb_ge in E. exact E.
+    + apply (concl_mono _ e _ (cb + 7 * S w)); [|lia]. apply wrap_concl; auto.
+Qed.
+
+Lemma wrap_starts w B : (w = 0 -> starts_nominus B) -> starts_nominus (wrap w B).
+Proof.
+  intros H. destruct w as [|w]; [apply H; reflexivity|].
+  intros Y. exists TLp, ((wrap w B ++ [TRp]) ++ Y). split; [reflexivity|discriminate].
+Qed.
+
+Lemma pr4_starts ps a : no_call a = true -> starts_nominus (pr 4 ps a).
+Proof.
+  intros NC. destruct a; try discriminate; cbn [pr natlvl]; apply wrap_starts; intros E;
+    try (cbn in E; lia).
+  - intros Y. exists (TNum ip fp), Y. split; [reflexivity|discriminate].
+  - intros Y. exists (TId x), Y. split; [reflexivity|discriminate].
+Qed.
+
+Lemma lvl_cases l : lvl_ok l -> forall n, l <= n -> n <= 2 -> l = 0 \/ l = 1 \/ l = 2.
+Proof. intros [->|[->|[->| ->]]] n H1 H2; auto; lia. Qed.
+
+Ltac solve_ok := solve [left; reflexivity | right; left; reflexivity | right; right; left; reflexivity | right; right; right; reflexivity].
+
+Theorem parse_main : forall e, no_call e = true -> wf_expr e = true ->
+  forall ps lvl, lvl_ok lvl -> Concl lvl e (pr lvl ps e) (cost ps e).
+Proof.
+  induction e; intros NC WF ps lvl OK; try discriminate.
+  - (* Num *) cbn [pr cost natlvl]. apply (concl_mono _ _ _ (6 + 7 * (ps [] + 1))); [|lia].
+    apply assemble; auto. intros l Hl _. apply good_num; auto.
+  - (* Var *) cbn [pr cost natlvl]. apply (concl_mono _ _ _ (6 + 7 * (ps [] + 1))); [|lia].
+    apply assemble; auto. intros l Hl _. apply good_var; auto.
+  - (* Neg *) cbn [pr cost natlvl]. simpl in NC, WF.
+    apply (concl_mono _ _ _ (cost (sub 0 ps) e + 4 + 7 * (ps [] + 1))); [|lia].
+    apply (assemble (Neg e)); auto. intros l Hl Hn. apply good_neg.
+    + apply IHe; auto; try solve_ok.
+    + apply (lvl_cases l Hl 2); auto.
+  - (* Add *) cbn [pr cost natlvl]. simpl in NC, WF. apply andb_true_iff in NC, WF. destruct NC, WF.
+    apply (concl_mono _ _ _ (cost (sub 0 ps) e1 + cost (sub 1 ps) e2 + 2 + 7 * (ps [] + 1))); [|lia].
+    apply (assemble (Add e1 e2)); auto. intros l Hl Hn. cbn in Hn. assert (l = 0) by lia. subst l.
+    apply good_add; [apply IHe1|apply IHe2]; auto; try solve_ok.
+  - (* Sub *) cbn [pr cost natlvl]. simpl in NC, WF. apply andb_true_iff in NC, WF. destruct NC, WF.
+    apply (concl_mono _ _ _ (cost (sub 0 ps) e1 + cost (sub 1 ps) e2 + 2 + 7 * (ps [] + 1))); [|lia].
+    apply (assemble (Sub e1 e2)); auto. intros l Hl Hn. cbn in Hn. assert (l = 0) by lia. subst l.
+    apply good_sub; [apply IHe1|apply IHe2]; auto; try solve_ok.
+  - (* Mul *) cbn [pr cost natlvl]. simpl in NC, WF. apply andb_true_iff in NC, WF. destruct NC, WF.
+    apply (concl_mono _ _ _ (cost (sub 0 ps) e1 + cost (sub 1 ps) e2 + 3 + 7 * (ps [] + 1))); [|lia].
+    apply (assemble (Mul e1 e2)); auto. intros l Hl Hn. cbn in Hn.
+    apply good_mul; [apply IHe1|apply IHe2|]; auto; try solve_ok.
+    destruct Hl as [->|[->|[->| ->]]]; auto; lia.
+  - (* Div *) cbn [pr cost natlvl]. simpl in NC, WF. apply andb_true_iff in NC, WF. destruct NC, WF.
+    apply (concl_mono _ _ _ (cost (sub 0 ps) e1 + cost (sub 1 ps) e2 + 3 + 7 * (ps [] + 1))); [|lia].
+    apply (assemble (Div e1 e2)); auto. intros l Hl Hn. cbn in Hn.
+    apply good_div; [apply IHe1|apply IHe2|]; auto; try solve_ok.
+    destruct Hl as [->|[->|[->| ->]]]; auto; lia.
+  - (* Pow *) cbn [pr cost natlvl]. simpl in NC, WF. apply andb_true_iff in NC, WF. destruct NC, WF.
+    apply (concl_mono _ _ _ (cost (sub 0 ps) e1 + cost (sub 1 ps) e2 + 5 + 7 * (ps [] + 1))); [|lia].
+    apply (assemble (Pow e1 e2)); auto. intros l Hl Hn. cbn in Hn.
+    apply good_pow; [apply IHe1|apply IHe2|apply pr4_starts|]; auto; try solve_ok.
+    destruct Hl as [->|[->|[->| ->]]]; auto; lia.
+Qed.
+
+(* ------------------------------------------------------------------ fuel *)
+Lemma wrap_length w B : List.length (wrap w B) = 2 * w + List.length B.
+Proof. induction w; simpl; auto. rewrite app_length. simpl. lia. Qed.
+
+Lemma cost_bound : forall e ps lvl, no_call e = true -> cost ps e <= 15 * List.length (pr lvl ps e).
+Proof.
+  induction e; intros ps lvl NC; try discriminate; cbn [pr cost]; rewrite wrap_length;
+    simpl in NC; try (apply andb_true_iff in NC; destruct NC as [NC1 NC2]).
+  - simpl. lia.
+  - simpl. lia.
+  - cbn [List.length]. specialize (IHe (sub 0 ps) 2 NC). lia.
+  - rewrite app_length. cbn [List.length]. specialize (IHe1 (sub 0 ps) 0 NC1). specialize (IHe2 (sub 1 ps) 1 NC2). lia.
+  - rewrite app_length. cbn [List.length]. specialize (IHe1 (sub 0 ps) 0 NC1). specialize (IHe2 (sub 1 ps) 1 NC2). lia.
+  - rewrite app_length. cbn [List.length]. specialize (IHe1 (sub 0 ps) 1 NC1). specialize (IHe2 (sub 1 ps) 2 NC2). lia.
+  - rewrite app_length. cbn [List.length]. specialize (IHe1 (sub 0 ps) 1 NC1). specialize (IHe2 (sub 1 ps) 2 NC2). lia.
+  - rewrite app_length. cbn [List.length]. specialize (IHe1 (sub 0 ps) 4 NC1). specialize (IHe2 (sub 1 ps) 2 NC2). lia.
+Qed.
+
+Theorem parse_print_toks e ps : no_call e = true -> wf_expr e = true -> parse_toks (pr 0 ps e) = Some e.
+Proof.
+  intros NC WF. unfold parse_toks.
+  pose proof (parse_main e NC WF ps 0 (or_introl eq_refl) [] 1 (e, []) eq_refl (pEl_nil e)) as H.
+  rewrite app_nil_r in H. cbn [P] in H. rewrite H; [reflexivity|].
+  unfold fuel_for. pose proof (cost_bound e ps 0 NC). lia.
+Qed.
+
+
+(* ================================================================== part LP5 *)
+(* ------------------------------------------------------------------ characters <-> AST *)
+Lemma forallb_wrap w B : forallb lwf_tok (wrap w B) = forallb lwf_tok B.
+Proof. induction w; simpl; auto. rewrite forallb_app. simpl. rewrite IHw. apply andb_true_r. Qed.
+
+Lemma pr_lwf : forall e lvl ps, no_call e = true -> wf_expr e = true -> forallb lwf_tok (pr lvl ps e) = true.
+Proof.
+  induction e; intros lvl ps NC WF; try discriminate; cbn [pr]; rewrite forallb_wrap; simpl in NC, WF;
+    try (apply andb_true_iff in NC; destruct NC as [NC1 NC2]; apply andb_true_iff in WF; destruct WF as [WF1 WF2]).
+  - simpl. rewrite andb_true_r. apply (wf_lwf (TNum ip fp)). exact WF.
+  - simpl. rewrite andb_true_r. exact WF.
+  - simpl. apply IHe; auto.
+  - rewrite forallb_app. simpl. rewrite IHe1, IHe2; auto.
+  - rewrite forallb_app. simpl. rewrite IHe1, IHe2; auto.
+  - rewrite forallb_app. simpl. rewrite IHe1, IHe2; auto.
+  - rewrite forallb_app. simpl. rewrite IHe1, IHe2; auto.
+  - rewrite forallb_app. simpl. rewrite IHe1, IHe2; auto.
+Qed.
+
+Theorem parse_print_partial e s : no_call e = true -> wf_expr e = true -> parse (print s e) = Some e.
+Proof.
+  intros NC WF. unfold parse, print. rewrite tokenize_render by (apply pr_lwf; auto).
+  apply parse_print_toks; auto.
+Qed.
+
+(* two spellings of one AST have the same value: whatever the spacing, power notation, redundant parentheses *)
+Corollary spelling_independent e s s' env venv : no_call e = true -> wf_expr e = true ->
+  eval_string env venv (print s e) = eval_string env venv (print s' e).
+Proof. intros NC WF. unfold eval_string. rewrite !parse_print_partial; auto. Qed.
+
+(* ------------------------------------------------------------------ call surgery *)
+Lemma find_char_first c : forall l r, notin c l = true -> find [c] (l ++ c :: r) = Some (List.length l).
+Proof.
+  induction l as [|a l IH]; intros r N.
+  - simpl. rewrite Ascii.eqb_refl. reflexivity.
+  - simpl in N. apply andb_true_iff in N. destruct N as [N1 N2]. rewrite <- app_comm_cons.
+    rewrite find_step. + rewrite IH; auto. + simpl. apply negb_true_iff in N1. rewrite Ascii.eqb_sym, N1. reflexivity.
+Qed.
+Lemma firstn_app_exact {A} (l r : list A) : firstn (List.length l) (l ++ r) = l.
+Proof. induction l; simpl; [reflexivity|rewrite IHl; reflexivity]. Qed.
+
+(* when f( first occurs at the call and the argument text contains no `)`, the text that is replaced is exactly
+   the call f(args) *)
+Theorem surgery_atomic pre f args post repl :
+  find (f ++ ["("]) (pre ++ f ++ "(" :: args ++ ")" :: post) = Some (List.length pre) ->
+  notin ")" f = true -> notin ")" args = true ->
+  process_func_call (pre ++ f ++ "(" :: args ++ ")" :: post) f repl =
+  Some (py_replace (f ++ "(" :: args ++ [")"]) repl (pre ++ f ++ "(" :: args ++ ")" :: post)).
+Proof.
+  intros F Nf Na. unfold process_func_call. rewrite F. rewrite skipn_app_len.
+  replace (f ++ "(" :: args ++ ")" :: post) with ((f ++ "(" :: args) ++ ")" :: post)
+    by (rewrite <- app_assoc; reflexivity).
+  rewrite find_char_first.
+  2:{ rewrite notin_app. rewrite Nf. simpl. exact Na. }
+  replace (S (List.length (f ++ "(" :: args))) with (List.length ((f ++ "(" :: args) ++ [")"]))
+    by (rewrite app_length; simpl; lia).
+  replace ((f ++ "(" :: args) ++ ")" :: post) with (((f ++ "(" :: args) ++ [")"]) ++ post)
+    by (rewrite <- app_assoc; reflexivity).
+  rewrite firstn_app_exact. rewrite <- !app_assoc. reflexivity.
+Qed.
+
+(* compound first argument: the first `)` is not the end of the call -> unbalanced text (SyntaxError in the
+   generated file); and an argument that is a sum is spliced in without parentheses -> another value *)
+Example surgery_refuted_unbalanced :
+  balanced (s2l "identity(a*(b + k))") = true /\
+  option_map balanced (process_func_call (s2l "identity(a*(b + k))") (s2l "identity") (s2l "a*(b + k)")) = Some false.
+Proof. split; vm_compute; reflexivity. Qed.
+
+Example surgery_refuted_precedence :
+  let env := [(s2l "r", mkq 3 2); (s2l "rr", mkq 1 4)] in
+  process_func_call (s2l "2*identity(r + rr)") (s2l "identity") (s2l "r + rr") = Some (s2l "2*r + rr") /\
+  oq_eqb (eval_string env [] (s2l "2*no_op(r + rr)")) (Some (mkq 7 2)) = true /\
+  oq_eqb (eval_string env [] (s2l "2*r + rr")) (Some (mkq 13 4)) = true.
+Proof. split; [|split]; vm_compute; reflexivity. Qed.
+
+(* calls round-trip on examples (the general proof covers the operator subset only) *)
+Example parse_print_call_example :
+  forall e, parse (s2l "-x^2 + (2**3)**x/4*f(x, g(), r+1)") = Some e ->
+  parse (print full e) = Some e /\ parse (print plain e) = Some e.
+Proof. vm_compute. intros e H. injection H as <-. split; reflexivity. Qed.
+
